@@ -21,6 +21,12 @@ PROPS = {
         "assumptions": [SQLITE, "tag-name and tag-value encryption injective (decryptability); no 12-byte HMAC prefix collision among the values in play (idealisation, hypothesis NoPrefixCollision)"],
         "trusted_base": [],
     },
+    "C05": {
+        "gens": ["C05"],
+        "rule": "call-level schedules of one writing transaction with two plain sessions and (half of the cases) a competing transaction on a file-backed WAL store: own reads, foreign reads and scans between the writes, blocked foreign writes, every ending (commit / rollback / drop), then plain writes, the competing transaction's retry and a final dump; non-trivial = >= 2 successful writes inside the transaction and >= 1 foreign read between them; distinct = hash",
+        "assumptions": [SQLITE, "SQLite WAL isolation: one write lock, readers see the last committed state (assumed by the abstract transactional store; validated by this run)"],
+        "trusted_base": [],
+    },
     "C07": {
         "gens": ["C07"],
         "rule": "interleaved histories over up to 4 profile names with colliding record identities, create/remove/re-create, sessions on missing profiles, per-profile scans; non-trivial = >= 2 profiles hold records and a profile is removed and another created afterwards; distinct = hash",
@@ -80,6 +86,16 @@ def nontrivial(prop, rec):
         nrec = sum(1 for op in ops if op.get("op") == "insert")
         kinds = sum(1 for k in ["'eq'", "'neq'", "'in'", "'exist'", "'like'", "'gt'", "'gte'", "'lt'", "'lte'"] if k in txt)
         return "'not'" in txt and kinds >= 2 and any(0 < c < nrec for c in counts)
+    if prop == "C05":
+        w = 0; saw_foreign_read_between = False
+        for op, o in zip(ops, outs):
+            if op.get("op") in ("commit", "rollback", "drop") and op.get("s") == 0:
+                break
+            if op.get("s") == 0 and op.get("op") in ("insert", "replace", "remove", "remove_all") and (o == "ok" or (isinstance(o, dict) and "n" in o)):
+                w += 1
+            elif w >= 1 and op.get("op") in ("fetch", "count", "fetch_all", "scan") and op.get("s") != 0:
+                saw_foreign_read_between = True
+        return w >= 2 and saw_foreign_read_between
     if prop == "C07":
         created = [i for i, op in enumerate(ops) if op.get("op") == "create_profile"]
         removed = [i for i, (op, o) in enumerate(zip(ops, outs)) if op.get("op") == "remove_profile" and isinstance(o, dict) and o.get("removed")]
